@@ -291,6 +291,17 @@ class C02(core.PropertyCheck):
             if i % 6 == 5:
                 yield self.gen_walk_case(rng)
                 continue
+            if i % 12 == 10:
+                # title injection kernel: a random title (texts, containers, references to `own` and to others, nested)
+                def tnode(d):
+                    r = rng.random()
+                    if r < 0.4 or d > 3:
+                        return ["t", rng.choice(["See ", "x", " here", "é"])]
+                    if r < 0.65:
+                        return ["w", [tnode(d + 1) for _ in range(rng.randint(0, 3))]]
+                    return ["r", rng.choice(["a", "a", "b", "c"]), [tnode(d + 1) for _ in range(rng.randint(0, 2))]]
+                yield {"kind": "strip", "own": rng.choice(["a", "b"]), "nodes": [tnode(0) for _ in range(rng.randint(0, 4))]}
+                continue
             if i % 12 == 4:
                 # handler kernel: the open-directive stack handed to the real TabsSelectorHandler.scan_for_pattern
                 names = ["tabs", "tab", "procedure", "step", "note", "tabs", "procedure"]
@@ -347,7 +358,7 @@ class C02(core.PropertyCheck):
         return {"kind": "walk", "pages": [[tree(0) for _ in range(rng.randint(0, 3))] for _ in range(rng.randint(1, 3))]}
 
     def shrink_candidates(self, case):
-        if case["kind"] == "disk":
+        if case["kind"] in ("disk", "strip"):
             return
         if case["kind"] == "scan":
             for i in range(len(case["stack"])):
@@ -397,6 +408,28 @@ class C02(core.PropertyCheck):
         return pages
 
     def run_impl(self, case):
+        if case["kind"] == "strip":
+            from snooty import postprocess
+
+            def build(x):
+                if x[0] == "t":
+                    return n.Text((0,), x[1])
+                if x[0] == "w":
+                    return n.Emphasis((0,), [build(c) for c in x[1]])
+                return n.RefRole((0,), [build(c) for c in x[2]], "std", "label", x[1], "", None, None)
+
+            def back(node):
+                if isinstance(node, n.Text):
+                    return ["t", node.value]
+                if isinstance(node, n.RefRole):
+                    return ["r", node.target, [back(c) for c in node.children]]
+                return ["w", [back(c) for c in node.children]]
+            own = n.RefRole((0,), [], "std", "label", case["own"], "", None, None)
+            try:
+                out = postprocess.without_ref_roles([build(x) for x in case["nodes"]], own)
+            except Exception as e:
+                return {"exc": type(e).__name__, "where": "postprocess.without_ref_roles", "msg": str(e)[:80]}
+            return {"exc": None, "nodes": [back(x) for x in out]}
         if case["kind"] == "scan":
             import collections
             import types
@@ -492,6 +525,8 @@ class C02(core.PropertyCheck):
 
     # ---- model (event walk only)
     def model_request(self, case):
+        if case["kind"] == "strip":
+            return {"op": "c02.strip", "own": case["own"], "nodes": case["nodes"]}
         if case["kind"] == "scan":
             return {"op": "c02.scan", "stack": case["stack"]}
         if case["kind"] != "walk":
@@ -512,6 +547,10 @@ class C02(core.PropertyCheck):
         return {"op": "c02.walk", "pages": [{"file": fid.as_posix(), "ast": enc(ast)} for fid, ast in pages]}
 
     def compare(self, case, model, impl):
+        if case["kind"] == "strip":
+            if impl.get("exc"):
+                return f"without_ref_roles raised {impl['exc']}"
+            return None if model.get("nodes") == impl["nodes"] else f"without_ref_roles({case['nodes']}, own={case['own']}): model {model.get('nodes')} impl {impl['nodes']}"
         if case["kind"] == "scan":
             want = model.get("ok") if "ok" in model else "exc:" + model.get("exc", "?")
             got = impl.get("ok") if not impl.get("exc") else "exc:" + impl["exc"]
@@ -533,6 +572,14 @@ class C02(core.PropertyCheck):
 
     # ---- oracle
     def oracle(self, case, impl):
+        if case["kind"] == "strip":
+            def has_ref(x):
+                return x[0] == "r" or (x[0] == "w" and any(has_ref(c) for c in x[1]))
+            if impl.get("exc"):
+                return f"postprocessing raised {impl['exc']} at {impl['where']}"
+            if any(has_ref(x) for x in impl["nodes"]):
+                return f"a title prepared for injection still holds a cross-reference role: {impl['nodes']} (the reference pass can then recurse without end)"
+            return None
         if case["kind"] == "scan":
             if impl.get("exc"):
                 return f"postprocessing raised {impl['exc']} at {impl['where']} (open directives {' > '.join(case['stack'])})"
@@ -565,7 +612,9 @@ class C02(core.PropertyCheck):
         viol, seen, tags, built = [], set(), {}, 0
         for _ in range(n):
             case = c04gen.gen_project_case(rng)
-            files = dict(case["files"])
+            # prebuilt `.ast` pages (hand-made JSON trees, here generated with deliberate type faults for C04) are not rST
+            # sources: outside the quantifier of this property
+            files = {k: v for k, v in case["files"].items() if not k.endswith(".ast")}
             info = c02disk.add_disk_features(rng, files)
             for t in info["tags"]:
                 tags[t] = tags.get(t, 0) + 1
@@ -586,6 +635,8 @@ class C02(core.PropertyCheck):
             return json.dumps(case)
         if case["kind"] == "scan":
             return json.dumps(case) if len(case["stack"]) >= 3 else None
+        if case["kind"] == "strip":
+            return json.dumps(case) if '"r"' in json.dumps(case["nodes"]) else None
         return json.dumps(case, sort_keys=True) if ".. " in "".join(case["files"].values()) else None
 
     def branch_tags(self, case, model, impl):
